@@ -171,7 +171,9 @@ class Array:
                 # empty row selection: nothing to stack
                 data = np.empty((0, *self.shape[1:]), dtype=self.dtype)
 
-        new_indexers = tuple(cons(slice(None), indexers[1:]))
+        # an integer row indexer drops the row axis
+        row_indexer = 0 if isinstance(indexers[0], (int, np.integer)) else slice(None)
+        new_indexers = tuple(cons(row_indexer, indexers[1:]))
         return data[new_indexers]
 
     @property
